@@ -11,6 +11,12 @@
  *  2. Randomness seam. With FSFAULT_RANDSEED=<n> in a `monorail` process, getrandom() returns a
  *     deterministic byte stream, which makes std's RandomState (HashMap/HashSet iteration order,
  *     e.g. the order of explicit -t targets) and tokio's select! seed a function of n.
+ *  3. Wall-clock seam. With FSFAULT_CLOCK=<offset_secs>[:<after_reads>:<delta_secs>] in a `monorail` process
+ *     every reading of the realtime clock (clock_gettime(CLOCK_REALTIME[_COARSE]), gettimeofday, time) is
+ *     shifted by <offset_secs>, and from the (<after_reads>+1)-th reading on by <delta_secs> more: a clock that
+ *     is wrong by hours or years and that jumps (forwards or backwards) in the middle of an invocation. The
+ *     monotonic clock (timers, runtimes) and the timestamps the kernel puts on files are left alone, so the
+ *     process also disagrees with the file system about what time it is.
  */
 #define _GNU_SOURCE
 #include <dlfcn.h>
@@ -29,6 +35,8 @@
 #include <sys/syscall.h>
 #include <sys/types.h>
 #include <sys/uio.h>
+#include <sys/time.h>
+#include <time.h>
 #include <unistd.h>
 
 #define MAXFD 4096
@@ -36,6 +44,11 @@
 
 static int active = 0;
 static int rand_active = 0;
+static int clock_active = 0;
+static long long clock_off = 0;
+static long clock_jump_after = -1;
+static long long clock_jump_delta = 0;
+static long clock_reads = 0;
 static uint64_t rand_state = 0;
 static char root[4096];
 static size_t root_len = 0;
@@ -114,6 +127,16 @@ __attribute__((constructor)) static void init(void) {
     if (rs && *rs) {
         rand_state = strtoull(rs, NULL, 10);
         rand_active = 1;
+    }
+    const char *ck = getenv("FSFAULT_CLOCK");
+    if (ck && *ck) {
+        char *e = NULL;
+        clock_off = strtoll(ck, &e, 10);
+        if (e && *e == ':') {
+            clock_jump_after = strtol(e + 1, &e, 10);
+            if (e && *e == ':') clock_jump_delta = strtoll(e + 1, NULL, 10);
+        }
+        clock_active = 1;
     }
     const char *r = getenv("FSFAULT_ROOT");
     if (!r || !*r) return;
@@ -613,4 +636,32 @@ ssize_t getrandom(void *buf, size_t len, unsigned int flags) {
     }
     pthread_mutex_unlock(&mu);
     return (ssize_t)len;
+}
+
+/* ---- wall-clock seam ---- */
+static long long clock_shift(void) {
+    long n = __sync_add_and_fetch(&clock_reads, 1);
+    return clock_off + ((clock_jump_after >= 0 && n > clock_jump_after) ? clock_jump_delta : 0);
+}
+static int (*real_clock_gettime)(clockid_t, struct timespec *);
+int clock_gettime(clockid_t c, struct timespec *ts) {
+    if (!real_clock_gettime) real_clock_gettime = dlsym(RTLD_NEXT, "clock_gettime");
+    int r = real_clock_gettime(c, ts);
+    if (r == 0 && clock_active && ts && (c == CLOCK_REALTIME || c == CLOCK_REALTIME_COARSE)) ts->tv_sec += clock_shift();
+    return r;
+}
+static int (*real_gettimeofday)(struct timeval *, void *);
+int gettimeofday(struct timeval *tv, void *tz) {
+    if (!real_gettimeofday) real_gettimeofday = dlsym(RTLD_NEXT, "gettimeofday");
+    int r = real_gettimeofday(tv, tz);
+    if (r == 0 && clock_active && tv) tv->tv_sec += clock_shift();
+    return r;
+}
+static time_t (*real_time)(time_t *);
+time_t time(time_t *t) {
+    if (!real_time) real_time = dlsym(RTLD_NEXT, "time");
+    time_t v = real_time(NULL);
+    if (clock_active && v != (time_t)-1) v += clock_shift();
+    if (t) *t = v;
+    return v;
 }
